@@ -1921,7 +1921,9 @@ class StubGlyph:
 
     @property
     def height(self):
-        return self.ascender - self.descender
+        # an ascender below the descender must not give the stub glyph a
+        # negative advance height, which vmtx rejects
+        return max(self.ascender - self.descender, 0)
 
     def draw(self, pen):
         pass
